@@ -88,6 +88,27 @@ def run(pid, path):
             return 1
         print(f"OK property={pid}: the input no longer violates")
         return 0
+    case = rp.get("case")
+    if case:
+        # run exactly the case (scenario / pair / parameter set / batch) that produced the finding
+        mod = __import__(f"suite_{case['suite']}")
+        res = getattr(mod, case["fn"])(tuple(case["task"]))
+        if case["suite"] == "dyn":
+            found = mod.attribute([res])
+        else:
+            found = res.get("findings", [])
+        if res.get("error"):
+            print("the case could not be run again:", str(res["error"])[-1500:])
+            return 2
+        mine = [f for f in found if f["property"] == pid]
+        print(f"case {case['suite']}.{case['fn']}{tuple(case['task'])}: {len(found)} finding(s), {len(mine)} for {pid}")
+        for f in mine[:5]:
+            print("  -", f["kind"], ":", f["what"][:300])
+        if mine:
+            print(f"VIOLATION property={pid} replay={path}")
+            return 1
+        print(f"OK property={pid}: the case no longer violates")
+        return 0
     print(json.dumps(rp, indent=1, default=str)[:4000])
-    print("(this kind of replay is descriptive: re-run the check with the same VERIF_SEED to reproduce)")
+    print("(this replay is descriptive: re-run the check with the same VERIF_SEED to reproduce)")
     return 0
